@@ -49,11 +49,16 @@ WATCHDOG = {"quick": 600, "thorough": 3000}
 NAMES = ["S", "T", "U", "W", "D", "E"]
 
 
+# glibc fills freed blocks with a pattern: a matrix whose buffer was freed behind its back shows
+# different values at once (plain build; the asan build reports the access itself)
+PERTURB = {"MALLOC_PERTURB_": "85"}
+
+
 def plan(tier):
     if tier == "thorough":
-        return [{"variant": "plain", "workers": 12, "cases": 7000, "name": "plain"},
-                {"variant": "asan", "workers": 4, "cases": 1200, "name": "asan"}]
-    return [{"variant": "plain", "workers": 7, "cases": 380, "name": "plain"},
+        return [{"variant": "plain", "workers": 12, "cases": 8000, "name": "plain", "env": PERTURB},
+                {"variant": "asan", "workers": 4, "cases": 1000, "name": "asan"}]
+    return [{"variant": "plain", "workers": 7, "cases": 700, "name": "plain", "env": PERTURB},
             {"variant": "asan", "workers": 1, "cases": 100, "name": "asan"}]
 
 
